@@ -58,6 +58,7 @@ impl H263State {
             reference_picture,
             running_options,
             reference_states,
+            ..
         } = self;
         let mut keys: Vec<u16> = reference_states.keys().copied().collect();
         keys.sort_unstable();
@@ -68,6 +69,13 @@ impl H263State {
             running_options.bits(),
             keys,
         )
+    }
+
+    /// Verification hook: size of the decoder object in bytes. A search that merges states on
+    /// `verif_state()` uses it to notice that the object has state the key does not contain.
+    #[cfg(feature = "verif")]
+    pub fn verif_object_size() -> usize {
+        std::mem::size_of::<Self>()
     }
 
     /// Verification hook: a stored picture by key.
